@@ -60,7 +60,7 @@ def build_traces(path, tier, seed):
         dt = [0.01, 0.0078125, 0.02, 0.005, 0.5][i % 5]
         nper = int(rng.integers(1, 5))
         ratios = sorted(set([edge[(i + k) % 5] if k % 2 == 0 else c01.regime(rng, i * 4 + k)[0] for k in range(nper)]))
-        xi = [0.0, 0.05, 0.3, 0.7, 0.999, float(rng.uniform(0, 0.999))][i % 6]
+        xi = [0.0, 0.05, 0.3, 0.7, 0.999, float(rng.uniform(0, 0.999)), 0][int(rng.integers(7))]     # incl. exactly 0 (float and int)
         periods = [r * dt for r in ratios]
         if i % 3 == 1:
             periods = [0.0] + periods
@@ -69,7 +69,7 @@ def build_traces(path, tier, seed):
             dt = 0.01
             container = [[0, 1, 2, 3], np.array([1, 2]), (0, 2), [3]][(i // 6) % 4]
             periods = [float(t) for t in container]
-        kind = ["pseudo", "true"][i % 2]
+        kind = ["pseudo", "true"][int(rng.integers(2))]
         fn = sdof.pseudo_response_spectra if kind == "pseudo" else sdof.true_response_spectra
         arg = a            # records are arrays here: the property quantifies over period containers (record containers: C05)
         raised = False
